@@ -445,3 +445,15 @@ Example ex_ec_scan_same :
   scan (nview ex_nfa) (v_start (nview ex_nfa) 0%Z false) [122; 120; 97] 0 (0%N, 0%nat) /\
   scan (nview ex_nfa) (v_start (nview ex_nfa) 0%Z false) [122; 120; 97] 0 (0%N, 0%nat) = (2%N, 1%nat).
 Proof. vm_compute. split; reflexivity. Qed.
+
+(** What the generated scanner does at run time - look the byte up in yy_ec and
+    move on the class - loses nothing: the loop fed the class representatives
+    selects the token it selects on the bytes themselves. *)
+Theorem ec_rep_scan a ec al : ec_consistent a ec al = true ->
+  forall w, Forall (fun b => In b al) w ->
+  forall i n last, scan (nview a) i (map (ec_rep ec al) w) n last = scan (nview a) i w n last.
+Proof.
+  intros H w Hw. apply (ec_consistent_scan a ec al H).
+  induction Hw as [|b t Hb _ IH]; simpl; constructor; [|exact IH].
+  destruct (ec_rep_class ec al b Hb) as [Hin Hec]. repeat split; assumption.
+Qed.
